@@ -801,7 +801,7 @@ def c18(tier):
         kw.setdefault('timeout', 3400)
         kw.setdefault('unwind', 4)
         return mk(name, 'c18_delayedobj.cpp', threads, rounds, order=order, setup='vp_setup2', final='vp_final2', cover=sum(1 << {'S': 1, 'F': 2, 'C': 0}[t[0]] for t in threads), defines=defines,
-                  opts={'yield_blocks': False, 'noinline': NI}, object_bits=12, cflags=STUB, solvers=('kissat',), mem_gb=24, est_gb=20, **kw)
+                  opts={'yield_blocks': False, 'noinline': NI}, object_bits=12, cflags=STUB, solvers=('kissat',), mem_gb=12, est_gb=12, **kw)
     qs.append(dq('do_setter_fulfiller_R2', [S, F], 2, []))
     return qs
 
